@@ -210,7 +210,129 @@ def unset_mapping():
     return n, vs
 
 
+# ----------------------------------------------------------------------------- (d) histories
+H_CTLS = {"volume": 1, "fine_volume": 7}
+
+
+def h_ops():
+    ops = [{"op": "link", "j": 2}, {"op": "link", "j": 3}]
+    for i in range(3):
+        for c in (0, 1, 7):
+            ops.append({"op": "map", "i": i, "c": c})
+    for v in (0, 1, 32768):
+        ops.append({"op": "value", "v": v})
+    for j in (1, 2, 3):
+        ops.append({"op": "ext", "j": j})
+    return ops
+
+
+def h_build(variant):
+    import rv.api as rv
+
+    p = rv.Project()
+    amps = [p.new_module(rv.m.Amplifier) for _ in range(3)]
+    if variant == "macro":
+        mc = rv.m.MultiCtl.macro(p, (amps[0], "volume"))
+    else:
+        mc = p.new_module(rv.m.MultiCtl)
+        mc >> amps[0]
+    return p, amps, mc
+
+
+def h_config(mc):
+    return {"links": list(mc.out_links), "maps": [[m.min, m.max, m.controller] for m in mc.mappings.values[:4]],
+            "gain": mc.gain, "quant": mc.quantization}
+
+
+def h_fresh_delivery(cfg, v, pre):
+    """What a FRESH MultiCtl with the same configuration delivers for input v (history independence)."""
+    import rv.api as rv
+
+    p = rv.Project()
+    amps = [p.new_module(rv.m.Amplifier) for _ in range(3)]
+    for a, st in zip(amps, pre):
+        a.volume, a.fine_volume = st
+    mc = p.new_module(rv.m.MultiCtl, gain=cfg["gain"])
+    mc.quantization = cfg["quant"]
+    for t in cfg["links"]:
+        if t >= 0:
+            mc >> p.modules[t]
+    for i, (mn, mx, c) in enumerate(cfg["maps"]):
+        mp = mc.mappings.values[i]
+        mp.min, mp.max, mp.controller = mn, mx, c
+    if mc.value == v:
+        mc.value = (v + 1) % 32769
+        for a, st in zip(amps, pre):
+            a.volume, a.fine_volume = st
+    mc.value = v
+    return [(a.volume, a.fine_volume) for a in amps]
+
+
+def run_history(variant, hist):
+    vs = []
+    case = {"variant": variant, "history": hist}
+    p, amps, mc = h_build(variant)
+    for step, op in enumerate(hist):
+        k = op["op"]
+        if k == "link":
+            mc >> amps[op["j"] - 1]
+        elif k == "map":
+            before = [[m.min, m.max, m.controller] for m in mc.mappings.values]
+            mc.mappings.values[op["i"]].controller = op["c"]
+            after = [[m.min, m.max, m.controller] for m in mc.mappings.values]
+            before[op["i"]][2] = op["c"]
+            if after != before:
+                vs.append(C.viol("mapping-slots-aliased", {"variant": variant}, {"step": step, "op": op}, case))
+                break
+        elif k == "ext":
+            amps[op["j"] - 1].volume = 5
+        elif k == "value":
+            pre = [(a.volume, a.fine_volume) for a in amps]
+            cfg = h_config(mc)
+            try:
+                if mc.value == op["v"]:
+                    pass
+                mc.value = op["v"]
+            except Exception as e:
+                vs.append(C.viol("delivery-raises", {"variant": variant, "exc": type(e).__name__}, {"step": step}, case))
+                break
+            got = [(a.volume, a.fine_volume) for a in amps]
+            want = h_fresh_delivery(cfg, op["v"], pre)
+            if got != want:
+                vs.append(C.viol("delivery-depends-on-history", {"variant": variant},
+                                 {"step": step, "input": op["v"], "delivered": got, "fresh": want, "config": cfg}, case))
+                break
+            for i, t in enumerate(cfg["links"]):
+                if t >= 0 and i < len(cfg["maps"]) and cfg["maps"][i][2] == 0 and got[t - 1] != pre[t - 1]:
+                    if not any(tt == t and cfg["maps"][ii][2] != 0 for ii, tt in enumerate(cfg["links"]) if ii < len(cfg["maps"])):
+                        vs.append(C.viol("unset-mapping-touches-target", {"type": "Amplifier", "history": True}, {"step": step}, case))
+    return vs
+
+
+def histories_task(t):
+    import itertools
+
+    variant, depth, lo, hi = t
+    ops = h_ops()
+    r = C.new_result()
+    for first in ops[lo:hi]:
+        for d in range(0, depth):
+            for rest in itertools.product(ops, repeat=d):
+                hist = [first] + list(rest)
+                if hist[-1]["op"] not in ("value", "map"):
+                    continue            # oracles fire on value / map ops only
+                vs = run_history(variant, hist)
+                r["evals"] += 1
+                C.count(r, "histories")
+                if len(r["violations"]) < 10:
+                    r["violations"] += vs
+    r["sample"] = {"variant": variant, "history": [ops[lo], ops[-4]]}
+    return r
+
+
 def run_case(case):
+    if "history" in case:
+        return run_history(case["variant"], case["history"])
     if "macro" in case or "macro16" in case:
         return macro_all()[1]
     if "unset" in case:
@@ -222,6 +344,8 @@ def run_case(case):
 
 def _task(t):
     r = C.new_result()
+    if t[0] == "hist":
+        return histories_task(t[1:])
     if t[0] == "macro":
         n, vs = macro_all()
         C.count(r, "macro_calls", n)
@@ -250,6 +374,10 @@ def run(ctx):
         keys = sorted(pick, key=lambda k: (k[1] - k[0], k[0], k[2]))
     g = grid(ctx.thorough)
     tasks = [("macro",), ("unset",)]
+    hdepth = 5 if ctx.thorough else 4
+    for variant in ("macro", "plain"):
+        for lo in range(len(h_ops())):
+            tasks.append(("hist", variant, hdepth, lo, lo + 1))
     for k in keys:
         for params in g:
             tasks.append(("sweep", k, reps[k], params))
@@ -268,5 +396,6 @@ def run(ctx):
         "value_axis": "all 32769 inputs", "target_spans": len(keys), "all_distinct_spans": len(reps),
         "parameter_tuples": len(g), "sweeps": agg.counters.get("sweeps", 0),
         "macro_calls": agg.counters.get("macro_calls", 0),
+        "operation_histories": agg.counters.get("histories", 0), "history_depth": hdepth, "history_ops": len(h_ops()),
         "samples": agg.samples,
     }
